@@ -13,7 +13,9 @@
 //!   (one after the other, or concurrently with `-par`), outcomes are reported per client.
 //!   `<transport>` = `tcp|duplex` + any of `-lazy` (connect_with_connector_lazy, failed call
 //!   retried once), `-x2` (each client connects twice from the same Endpoint, so the second TLS
-//!   session resumes), `-par`.
+//!   session resumes), `-par`, `-native` (`Endpoint::connect()` with tonic's own HttpConnector to a
+//!   recording loopback proxy in front of the server; URI host must be `ip`), `-cto` (a
+//!   connect_timeout is set, so the connector runs inside a TimeoutConnector).
 //! `<ops…>` is the sequence of `ClientTlsConfig` builder calls, in order (may be empty):
 //!   `ca:<ca1|ca2|ica1|junk|broken>`  `cas:<a>+<b>`  `ta:<ca>`  `tas:<a>+<b>` (trust anchors)
 //!   `dom:<good|bad|other|ip|invalid>`  `id:<c1|c2|c1chain|brokencert|nokey>`
@@ -262,6 +264,11 @@ struct Case {
     twice: bool,
     /// `-par`: all clients run concurrently against the one server
     par: bool,
+    /// `-native`: `Endpoint::connect()` / `connect_lazy()` with tonic's own HttpConnector to
+    /// `127.0.0.1:<port>` of a recording loopback proxy in front of the server (URI host `ip`)
+    native: bool,
+    /// `-cto`: a connect_timeout is set (the connector is wrapped in a TimeoutConnector)
+    cto: bool,
 }
 
 fn parse(case: &str) -> Option<Case> {
@@ -289,14 +296,19 @@ fn parse(case: &str) -> Option<Case> {
     if base != "tcp" && base != "duplex" {
         return None;
     }
-    let (mut lazy, mut twice, mut par) = (false, false, false);
+    let (mut lazy, mut twice, mut par, mut native, mut cto) = (false, false, false, false, false);
     for f in tr {
         match f {
             "lazy" => lazy = true,
             "x2" => twice = true,
             "par" => par = true,
+            "native" => native = true,
+            "cto" => cto = true,
             _ => return None,
         }
+    }
+    if native && clients.iter().any(|c| c.urihost != "ip") {
+        return None;
     }
     Some(Case {
         clients,
@@ -307,6 +319,8 @@ fn parse(case: &str) -> Option<Case> {
         lazy,
         twice,
         par,
+        native,
+        cto,
     })
 }
 
@@ -522,7 +536,63 @@ struct ClientOut {
 
 /// One client: build the Endpoint through the public API, connect through a connector that dials
 /// the case's server and taps the bytes, make one unary call (twice over with `-x2`).
-async fn run_client<IO: Transport>(idx: usize, spec: ClientSpec, dial: Dialer<IO>, lazy: bool, twice: bool) -> ClientOut {
+#[derive(Clone, Copy)]
+struct Mode {
+    lazy: bool,
+    twice: bool,
+    native: bool,
+    cto: bool,
+}
+
+/// A loopback TCP proxy in front of the case's server, for the runs that use tonic's own
+/// HttpConnector: records what the client writes and counts connections.
+async fn start_proxy<IO: Transport>(dial: Dialer<IO>, log: Arc<Mutex<TapLog>>, dials: Arc<AtomicUsize>) -> io::Result<u16> {
+    use tokio::io::{AsyncReadExt, AsyncWriteExt};
+    let l = tokio::net::TcpListener::bind(("127.0.0.1", 0)).await?;
+    let port = l.local_addr()?.port();
+    tokio::spawn(async move {
+        while let Ok((a, _)) = l.accept().await {
+            let _ = a.set_nodelay(true);
+            dials.fetch_add(1, Ordering::SeqCst);
+            let dial = dial.clone();
+            let log = log.clone();
+            tokio::spawn(async move {
+                let Ok(b) = dial().await else { return };
+                let (mut ar, mut aw) = tokio::io::split(a);
+                let (mut br, mut bw) = tokio::io::split(b);
+                let up = async move {
+                    let mut buf = vec![0u8; 16384];
+                    loop {
+                        match ar.read(&mut buf).await {
+                            Ok(0) | Err(_) => break,
+                            Ok(n) => {
+                                {
+                                    let mut l = log.lock().unwrap();
+                                    if l.written.len() < (1 << 20) {
+                                        l.written.extend_from_slice(&buf[..n]);
+                                    }
+                                }
+                                if bw.write_all(&buf[..n]).await.is_err() {
+                                    break;
+                                }
+                            }
+                        }
+                    }
+                    let _ = bw.shutdown().await;
+                };
+                let down = async move {
+                    let _ = tokio::io::copy(&mut br, &mut aw).await;
+                    let _ = aw.shutdown().await;
+                };
+                tokio::join!(up, down);
+            });
+        }
+    });
+    Ok(port)
+}
+
+async fn run_client<IO: Transport>(idx: usize, spec: ClientSpec, dial: Dialer<IO>, mode: Mode) -> ClientOut {
+    let Mode { lazy, twice, native, cto } = mode;
     let bad = |why: &str| ClientOut { cfg_state: "ok".into(), res: format!("fail:{}", why), plain: false, dialed: false };
     let log = Arc::new(Mutex::new(TapLog::default()));
     let dials = Arc::new(AtomicUsize::new(0));
@@ -532,10 +602,25 @@ async fn run_client<IO: Transport>(idx: usize, spec: ClientSpec, dial: Dialer<IO
         Some((s, o)) => (s, Some(format!("{}://{}:50051", o, host))),
         None => (spec.scheme.as_str(), None),
     };
-    let uri = format!("{}://{}:50051", scheme, host);
-    let with_origin = move |ep: Endpoint| match &origin {
-        Some(o) => ep.origin(o.parse().unwrap()),
-        None => ep,
+    let port = if native {
+        match start_proxy::<IO>(dial.clone(), log.clone(), dials.clone()).await {
+            Ok(p) => p,
+            Err(_) => return bad("harness-error-proxy"),
+        }
+    } else {
+        50051
+    };
+    let uri = format!("{}://{}:{}", scheme, host, port);
+    let with_origin = move |ep: Endpoint| {
+        let ep = match &origin {
+            Some(o) => ep.origin(o.parse().unwrap()),
+            None => ep,
+        };
+        if cto {
+            ep.connect_timeout(Duration::from_secs(10))
+        } else {
+            ep
+        }
     };
     let mut cfg_state = "ok".to_string();
     let ep = if spec.ops.len() == 1 && spec.ops[0] == "auto" {
@@ -583,10 +668,12 @@ async fn run_client<IO: Transport>(idx: usize, spec: ClientSpec, dial: Dialer<IO
                     }
                 })
             };
-            let ch = if lazy {
-                Ok(ep.connect_with_connector_lazy(connector))
-            } else {
-                ep.connect_with_connector(connector).await
+            let ch = match (native, lazy) {
+                (false, true) => Ok(ep.connect_with_connector_lazy(connector)),
+                (false, false) => ep.connect_with_connector(connector).await,
+                // tonic's own HttpConnector, through the recording proxy
+                (true, true) => Ok(ep.connect_lazy()),
+                (true, false) => ep.connect().await,
             };
             let r = match ch {
                 Err(e) => format!("fail:{}", classify_err(&e)),
@@ -612,6 +699,15 @@ async fn run_client<IO: Transport>(idx: usize, spec: ClientSpec, dial: Dialer<IO
         res = results[0].clone();
         if results.len() == 2 && canonical_res(&results[1]) != canonical_res(&results[0]) {
             res = format!("fail:second-connection-differs<{}|{}>", canonical_res(&results[0]), canonical_res(&results[1]));
+        }
+    }
+    if native && cfg_state == "ok" {
+        // the proxy learns about a connection only when its accept task runs; give it a turn
+        for _ in 0..50 {
+            if dials.load(Ordering::SeqCst) > 0 {
+                break;
+            }
+            tokio::time::sleep(Duration::from_millis(2)).await;
         }
     }
     let l = log.lock().unwrap();
@@ -704,6 +800,7 @@ async fn run_case<IO: Transport>(c: Case) -> String {
     };
 
     // ---- clients, one after the other or all at once, against the one server
+    let mode = Mode { lazy: c.lazy, twice: c.twice, native: c.native, cto: c.cto };
     let mut outs: Vec<ClientOut> = Vec::new();
     if c.par {
         let handles: Vec<_> = c
@@ -711,7 +808,7 @@ async fn run_case<IO: Transport>(c: Case) -> String {
             .iter()
             .cloned()
             .enumerate()
-            .map(|(i, spec)| tokio::spawn(run_client::<IO>(i, spec, dial.clone(), c.lazy, c.twice)))
+            .map(|(i, spec)| tokio::spawn(run_client::<IO>(i, spec, dial.clone(), mode)))
             .collect();
         for h in handles {
             outs.push(match h.await {
@@ -721,7 +818,7 @@ async fn run_case<IO: Transport>(c: Case) -> String {
         }
     } else {
         for (i, spec) in c.clients.iter().cloned().enumerate() {
-            outs.push(run_client::<IO>(i, spec, dial.clone(), c.lazy, c.twice).await);
+            outs.push(run_client::<IO>(i, spec, dial.clone(), mode).await);
         }
     }
     // let the server finish whatever it is doing with these connections
@@ -979,6 +1076,14 @@ const CORPUS: &[&str] = &[
     "tls https good ca:ca1 id:c2 | https good ca:ca2 id:c1 | https good ca:ca1 id:c1 | http good notls | https bad ca:ca1 id:c1 | https good ca:ca1 id:c1chain ; s1good h2 ca:ca1+opt:1 duplex-par-x2",
     "tls https good ca:ca1 id:c2 | https good ca:ca1 id:c1 | https good notls | https good ca:ca1 ; s1good h2last ca:ca1 duplex-lazy-par",
     "tls https good ca:ca1 id:c1 ; s1good h2 ca:ca1 tcp-x2",
+    // tonic's own HttpConnector (Endpoint::connect / connect_lazy), connect_timeout set
+    "tls https ip ca:ca1 ; s1ip h2 - tcp-native",
+    "tls https ip notls ; s1ip plain - tcp-native",
+    "tls https ip notls ; s1ip plain - tcp-native-lazy",
+    "tls https ip auto ; s1ip plain - tcp-native",
+    "tls https ip ca:ca1 ; s1ip none - tcp-native-lazy",
+    "tls https ip ca:ca1 id:c2 | https ip ca:ca1 id:c1 | https ip ca:ca1 ; s1ip h2 ca:ca1 tcp-native-par",
+    "tls https good ca:ca2 ; s1good h2 - tcp-cto-lazy",
     "tls https good ca:ca1 id:c1chain ; s1good h2 ca:ca1+opt:1 duplex-x2",
     "tls http good notls | https good ca:ca1 | http good notls ; s1good h2 - tcp",
     "tls https good notls | http good notls | https good ca:ca1 h2:1 ; s1good plain - tcp-par",
@@ -1159,6 +1264,33 @@ pub fn generate(tier: &str, rng: &mut Rng) -> Vec<String> {
         }
     }
 
+    // the default path of real applications: Endpoint::connect() / connect_lazy() with tonic's own
+    // HttpConnector (here to 127.0.0.1 behind a recording proxy), matrix-style
+    for roots in ["ca:ca1", "ca:ca2", ""] {
+        for dom in ["dom:good", "dom:bad", ""] {
+            for servercert in ["s1ip", "s1good"] {
+                for (alpn, assume) in [("h2", "h2:0"), ("none", "h2:0"), ("none", "h2:1"), ("http11", "h2:1"), ("plain", "h2:1")] {
+                    for sops in ["-", "ca:ca1", "ca:ca1+opt:1"] {
+                        for id in ["", "id:c1", "id:c2"] {
+                            let ops: Vec<String> = [roots, dom, id, assume].iter().map(|s| s.to_string()).collect();
+                            let tr = *rng.pick(&["tcp-native", "tcp-native-lazy", "duplex-native", "tcp-native-cto", "tcp-native-x2"]);
+                            out.push(format!("tls https ip {} ; {} {} {} {}", join_ops(&ops), servercert, alpn, sops, tr));
+                        }
+                    }
+                }
+            }
+        }
+    }
+    for scheme in ["https", "http", "HTTPS", "https+ohttp", "http+ohttps"] {
+        for client in ["notls", "auto", "", "ca:ca1", "ca:ca1 h2:1"] {
+            for alpn in ["plain", "h2", "none"] {
+                for tr in ["tcp-native", "tcp-native-lazy", "duplex-native-cto"] {
+                    out.push(format!("tls {} ip {} ; s1ip {} - {}", scheme, client, alpn, tr).replace("  ", " "));
+                }
+            }
+        }
+    }
+
     // random builder-call sequences on both sides
     let nrand = if thorough { 250000 } else { 10000 };
     for _ in 0..nrand {
@@ -1205,6 +1337,16 @@ pub fn generate(tier: &str, rng: &mut Rng) -> Vec<String> {
         } else {
             *rng.pick(&TRANSPORTS)
         };
+        let mut tr = tr.to_string();
+        if rng.chance(1, 6) {
+            tr.push_str("-cto");
+        }
+        if rng.chance(1, 8) {
+            tr.push_str("-x2");
+        }
+        if urihost == "ip" && rng.chance(1, 2) {
+            tr.push_str("-native");
+        }
         out.push(format!("tls {} {} {} ; {} {} {} {}", scheme, urihost, join_ops(&ops), servercert, alpn, sops, tr).replace("  ", " "));
     }
 
